@@ -26,6 +26,7 @@
   two TEXTS with the same significant tokens give bisimilar lexer-backed streams (the lexer
   side of the statement).
 -/
+import CxxModel.Theorems.LineEnds
 import CxxModel.TokStream
 import CxxModel.Tables
 import CxxModel.Theorems.Layout
@@ -105,5 +106,39 @@ theorem C09_layout_in_buffer_invisible (cfg : LexCfg) (b b' : Buf) (h : SigEq b 
 theorem C09_yields_respects_layout (cfg : LexCfg) (ts : List Tok) (b b' b1 : Buf) (hy : Yields cfg b ts b1) (h : SigEq b b') :
     ∃ b1', Yields cfg b' ts b1' ∧ SigEq b1 b1' :=
   Yields.sigEq hy h
+
+
+/-- **the trailing-comment scan keeps every line end** (the statement the repair 9b2dc7f makes true): `get_doxygen_after()`
+    removes nothing but comment tokens from the line buffer — what a NEWLINE-sensitive read (`#pragma`, `#include`
+    handling) sees of the buffer is unchanged, so a directive line that an earlier comment merged into the same buffer
+    still ends where it is written, however many declarators ran the scan before it -/
+theorem C09_trailing_scan_keeps_line_ends (mcRe : Re) (b : Buf) :
+    (getDoxygenAfter mcRe b).2.lex = b.lex ∧ (getDoxygenAfter mcRe b).2.bounded = b.bounded ∧
+      nlSigOf (getDoxygenAfter mcRe b).2.tokbuf = nlSigOf b.tokbuf :=
+  getDoxygenAfter_keeps_line_ends mcRe b
+
+/-- the same at the level of reads: after the trailing scan `token_newline_eof_ok` — the read `#pragma` / `#include` handling
+    uses — returns exactly what it would have returned without the scan -/
+theorem C09_newline_reads_unaffected_by_trailing_scan (cfg : LexCfg) (mcRe : Re) (b : Buf) :
+    (∃ e, tokenNewlineEofOk cfg (getDoxygenAfter mcRe b).2 = .error e ∧ tokenNewlineEofOk cfg b = .error e) ∨
+    (∃ o b1 b1', tokenNewlineEofOk cfg (getDoxygenAfter mcRe b).2 = .ok (o, b1) ∧ tokenNewlineEofOk cfg b = .ok (o, b1') ∧ NlSigEq b1 b1') :=
+  tokenNewlineEofOk_after_getDoxygenAfter cfg mcRe b
+
+/-- `n` trailing scans in a row (one per declarator of a statement) -/
+def scansAfter (mcRe : Re) : Nat → Buf → Buf
+  | 0, b => b
+  | n + 1, b => scansAfter mcRe n (getDoxygenAfter mcRe b).2
+
+/-- … for any number of scans in a row -/
+theorem C09_trailing_scans_keep_line_ends (mcRe : Re) : ∀ (n : Nat) (b : Buf),
+    nlSigOf (scansAfter mcRe n b).tokbuf = nlSigOf b.tokbuf := by
+  intro n
+  induction n with
+  | zero => intro b; rfl
+  | succ k ih =>
+    intro b
+    show nlSigOf (scansAfter mcRe k (getDoxygenAfter mcRe b).2).tokbuf = _
+    rw [ih]
+    exact (getDoxygenAfter_keeps_line_ends mcRe b).2.2
 
 end Cxx
